@@ -15,7 +15,7 @@ def run(ctx):
     out = ctx.sub("traces")
     traces, ncases = h1common.run_h1srv(ctx, drv, cases, out, modes="buffered" if ctx.quick else "buffered,streaming", cuts="whole")
     res = lib.validate(ctx, "H1ServerTrace", "H1ServerTrace.cfg", traces, timeout=1800)
-    lib.handle_rejections(ctx, res, lambda cl: rerun(ctx, cl))
+    lib.handle_rejections(ctx, res, lambda cl: rerun(ctx, cl), rerun_hist=lambda seq: h1common.rerun_h1srv_hist(ctx, seq))
 
     def pick(recs, pred):
         for r in recs:
